@@ -181,7 +181,7 @@ mod harness {
     }
     /// add_fetched_header / add_fetched_tx (fetch_header / fetch_transaction results): ONE atomic batch that ALWAYS (re)writes the header row and the
     /// number -> hash mapping of the proved block - get_transaction_with_header resolves the block BY NUMBER, so a mapping left over from an abandoned
-    /// branch (or from a sibling fetched earlier) must be overwritten - plus, for a transaction, its row (number, u32::MAX, tx)
+    /// branch (or from a sibling fetched earlier) must be overwritten - plus, for a transaction, its row (number, u32::MAX, tx) - or (number, recorded index, tx) when filter_block indexed it in this very block
     #[cfg(fb_fetched)] #[kani::proof] #[kani::unwind(16)] fn fetched_rows() {
         let st = Storage {
             scripts: [ScriptStatus { script: Script(1), script_type: ScriptType::Lock, block_number: 0 }, ScriptStatus { script: Script(2), script_type: ScriptType::Type, block_number: 0 }],
@@ -203,7 +203,12 @@ mod harness {
             unsafe {
                 assert!(COMMITS == 1 && COMMITTED.n == 3, "SPEC fetched transaction: not exactly one atomic batch of (header row, number -> hash mapping, transaction row)");
                 assert!(has_val(MKey::BlockHash(h), MVal::Header(n)) && has_val(MKey::BlockNumber(n), MVal::Hash(h)), "SPEC fetched transaction: header row / number -> hash mapping of the proved block not (re)written: get_transaction would report another block for it");
-                assert!(has_val(MKey::TxHash(th), MVal::Tx(n, u32::MAX, th)), "SPEC fetched transaction: transaction row is not (block number, u32::MAX, tx)");
+                // a transaction that filter_block already indexed IN THIS BLOCK keeps its real index: filter_block deletes the live cell of a spent output by (number, tx_index) read
+                // from this row, so a late fetch reply that rewrote it to u32::MAX left the spent cell live for ever (fixed: 3017341, native_replays/replay_c03_fetched_tx_index.diff)
+                let indexed_here = st.stored[0].0 == Byte32(th) && st.stored[0].1 == n;
+                let want = if indexed_here { st.stored[0].2 } else { u32::MAX };
+                assert!(has_val(MKey::TxHash(th), MVal::Tx(n, want, th)), "SPEC fetched transaction: transaction row is not (block number, tx_index, tx) with the index filter_block recorded for it in this block, or u32::MAX when it is not indexed in this block");
+                kani::cover!(indexed_here && want != u32::MAX, "the fetched transaction was already indexed in this block");
                 kani::cover!(st.hdr_stored, "the header was stored before");
             }
         }
